@@ -33,7 +33,7 @@ pub fn boolean(input: Input<'_>) -> ParserResult<'_, ASN1Type> {
     map(
         into(skip_ws_and_comments(preceded(
             tag(BOOLEAN),
-            skip_ws_and_comments(opt(constraints)),
+            opt(constraints),
         ))),
         ASN1Type::Boolean,
     )
